@@ -37,6 +37,8 @@ def run_against(patch, checks, scale, tier="quick"):
         for f in glob.glob(os.path.join(ROOT, "out", "bin", "*." + tag + ".test")):
             os.remove(f)
         shutil.rmtree(os.path.join(ROOT, "out", "modfile-" + tag), ignore_errors=True)
+        for d in glob.glob(os.path.join(ROOT, "out", "run", "*." + tag)) + glob.glob(os.path.join(ROOT, "out", "failures", "*." + tag)):
+            shutil.rmtree(d, ignore_errors=True)
 
 def main():
     args = sys.argv[1:]
